@@ -67,8 +67,14 @@ Begin(e) ==
 \* C08: a volume made by someone else is read faithfully: what the library lists (fresh mount) and what
 \* Abs(raw) decodes both equal the builder's ground truth (names, kinds, attributes, stamps, contents)
 TruthFacts(t) == {[p |-> t[i].p, k |-> t[i].k, at |-> t[i].at, d |-> t[i].c, ct |-> t[i].ct, mt |-> t[i].mt, ad |-> t[i].ad] : i \in 1..Len(t)}
+\* a volume the library has just formatted itself: the two reserved entries of every table copy carry the media descriptor of the boot
+\* sector (low byte of entry 0, all other bits one) and an end-of-chain pattern (C10: "keep the media descriptor and end-of-chain pattern")
+FreshTableViol(e) ==
+   IF ~(Has(e.cfg, "vol") /\ Has(e.cfg.vol, "kind") /\ e.cfg.vol.kind = "format" /\ e.raw.ok) THEN {}
+   ELSE LET max == MaxVal(e.raw.g.ft) IN
+        Tag("C10.reserved01", \A k \in 1..Len(e.raw.fats) : e.raw.fats[k].e0 = max - 255 + e.raw.g.media /\ e.raw.fats[k].e1 >= max - 7)
 BeginViol(e) ==
-   IF ~Has(e, "truth") THEN {}
+   IF ~Has(e, "truth") THEN FreshTableViol(e)
    ELSE LET oem == Oem(e.cfg)
             D == Derive(e.raw, oem)
             want == TruthFacts(e.truth)
